@@ -780,54 +780,93 @@ def fmt_block(cid: str, o: Dict[str, Any]) -> List[str]:
 # several recordings with one DataCollection object (START / STOP / START …, as the data logger does)
 # ------------------------------------------------------------------------------------------------
 
+class _DaemonThreading:
+    """the real `threading` module, except that threads are daemons: a writer thread that a changed `stop()` /
+    `close()` no longer ends must not keep the checking process alive"""
+
+    def __getattr__(self, name):
+        return getattr(_real_threading, name)
+
+    @staticmethod
+    def Thread(*a, **k):
+        k.setdefault("daemon", True)
+        return _real_threading.Thread(*a, **k)
+
+
+MULTI_SESSION_LIMIT_S = 60.0
+
+
 def multi_session_check(fmt: str = "raw", flush_every_update: bool = False, sessions=(5, 6, 4)) -> Dict[str, Any]:
     """Real DataCollection, real writer thread, real clock; one data set selecting every type; three recordings in a row
     with the same objects (only the file name changes, as the metadata would).  Returns the per-session sequences of
-    message serials that were sent and that the files contain."""
+    message serials that were sent and that the files contain.  The run is given MULTI_SESSION_LIMIT_S seconds (it
+    needs about one): a `stop()` that waits for ever is an observation ("exc"), not a hanging check."""
     E = env()
     dcm = E["dcm"]
     base = tempfile.mkdtemp(prefix="pyrtma_verif_dlmulti_")
     old_period = dcm.DataCollection.WRITE_PERIOD
+    old_thr = dcm.threading
     out: Dict[str, Any] = {"fmt": fmt, "flush_every_update": flush_every_update, "sessions": [], "exc": None}
-    dc = None
+    box: Dict[str, Any] = {"dc": None}
+
+    def body():
+        try:
+            md = E["LoggingMetadata"]()
+            dc = box["dc"] = dcm.DataCollection("c", base, "run", md)
+            ds = E["DataSet"]("c", "ds0", "ds0", "f0", E["get_formatter"](fmt), 0, [2147483647], md)
+            dc.add_data_set(ds)
+            serial = 0
+            for si, n in enumerate(sessions):
+                ds.file_name_fmt = f"rec{si}"
+                dc.start()
+                sent, keys = [], {}
+                for k in range(n):
+                    serial += 1
+                    m = mk_msg(k % 3, serial)
+                    keys[key_of(m)] = serial
+                    sent.append(serial)
+                    dc.update(m)
+                    if flush_every_update:
+                        _real_time.sleep(0.02)
+                dc.stop()
+                got: List[Any] = []
+                # the data set's file(s) of this recording
+                paths = sorted(str(p) for p in Path(base).rglob(f"rec{si}*"))
+                for pth in paths:
+                    for kk in decode_file(fmt, pth):
+                        got.append(keys.get(kk, ("foreign", kk[0][:8].hex() if kk[0] else None)))
+                out["sessions"].append({"sent": sent, "read": got, "files": [os.path.basename(p) for p in paths]})
+        except Exception as e:  # noqa: BLE001
+            out["exc"] = f"{type(e).__name__}: {e}"[:300]
+
     try:
+        dcm.threading = _DaemonThreading()
         if flush_every_update:
             dcm.DataCollection.WRITE_PERIOD = 0.0
-        md = E["LoggingMetadata"]()
-        dc = dcm.DataCollection("c", base, "run", md)
-        ds = E["DataSet"]("c", "ds0", "ds0", "f0", E["get_formatter"](fmt), 0, [2147483647], md)
-        dc.add_data_set(ds)
-        serial = 0
-        for si, n in enumerate(sessions):
-            ds.file_name_fmt = f"rec{si}"
-            dc.start()
-            sent, keys = [], {}
-            for k in range(n):
-                serial += 1
-                m = mk_msg(k % 3, serial)
-                keys[key_of(m)] = serial
-                sent.append(serial)
-                dc.update(m)
-                if flush_every_update:
-                    _real_time.sleep(0.02)
-            dc.stop()
-            got: List[Any] = []
-            for fn in sorted(os.listdir(os.path.join(base, "run")) if os.path.isdir(os.path.join(base, "run")) else []):
-                pass
-            # the data set's file(s) of this recording
-            paths = sorted(str(p) for p in Path(base).rglob(f"rec{si}*"))
-            for pth in paths:
-                for kk in decode_file(fmt, pth):
-                    got.append(keys.get(kk, ("foreign", kk[0][:8].hex() if kk[0] else None)))
-            out["sessions"].append({"sent": sent, "read": got, "files": [os.path.basename(p) for p in paths]})
-    except Exception as e:  # noqa: BLE001
-        out["exc"] = f"{type(e).__name__}: {e}"[:300]
+        t = _real_threading.Thread(target=body, daemon=True)
+        t.start()
+        t.join(MULTI_SESSION_LIMIT_S)
+        hung = t.is_alive()
+        if hung:
+            out = dict(out, sessions=list(out["sessions"]),
+                       exc=f"recording {len(out['sessions'])} did not end within {MULTI_SESSION_LIMIT_S:.0f} s "
+                           "(start / update / stop hangs)")
     finally:
         dcm.DataCollection.WRITE_PERIOD = old_period
-        try:
-            if dc is not None:
-                dc.close()
-        except Exception:  # noqa: BLE001
-            pass
+        dc = box["dc"]
+        if dc is not None:
+            dc._close = True
+            closer = _real_threading.Thread(target=_quiet, args=(dc.close,), daemon=True)
+            closer.start()
+            closer.join(5)
+            dc._dead = True
+        dcm.threading = old_thr
         shutil.rmtree(base, ignore_errors=True)
     return out
+
+
+def _quiet(fn) -> None:
+    try:
+        fn()
+    except Exception:  # noqa: BLE001
+        pass
